@@ -13,7 +13,7 @@ Scratch worktrees live under $TMPDIR and are removed.  Usage: python3 sim/selfte
 import os, subprocess, sys, tempfile, json, re
 VERIF = os.path.dirname(os.path.dirname(os.path.dirname(os.path.abspath(__file__))))
 CASES = [(n, "patch", 0) for n in ("C01", "C07", "C08", "C13", "C16", "C17", "C19")] + \
-        [(n, "patch", 1) for n in ("C13h", "C19h", "C09h", "C19t", "C11t", "C14t", "D1", "D3")] + [("D2", "patch", None), ("E1", "patch", 1), ("E3", "patch", None), ("E2", "patch", 0), ("F1", "patch", 1), ("F2", "patch", 1), ("F3", "patch", None), ("G1", "patch", 1), ("G2", "patch", 1), ("G3", "patch", 1)] + \
+        [(n, "patch", 1) for n in ("C13h", "C19h", "C09h", "C19t", "C11t", "C14t", "D1", "D3")] + [("D2", "patch", None), ("E1", "patch", 1), ("E3", "patch", None), ("E2", "patch", 0), ("F1", "patch", 1), ("F2", "patch", 1), ("F3", "patch", None), ("G1", "patch", 1), ("G2", "patch", 1), ("G3", "patch", 1), ("H1", "patch", 1), ("H2", "patch", 1)] + \
         [("C13h_fulltag", "fulltag", 1), ("C13h_fulltag_threads_only", "fulltag", 0), ("lazy_bad", "mk", 1), ("mutex_ok", "mk", 0), ("mutex_bad", "mk", 1),
          ("guard_ok", "mk", 0), ("once_ok", "mk", 0), ("alloc_bad", "mk", 1), ("alloc_ok", "mk", 0), ("seqlock_ok", "mk", 0), ("seqlock_bad", "mk", 1), ("clock_bad", "mk", 1), ("clock_ok", "mk", 0),
          ("tls_reentrant_ok", "mk", 0), ("tls_reentrant_bad", "mk", 1)]
@@ -41,7 +41,7 @@ def main():
                 open(p, "w").write(s)
             else:
                 sh([sys.executable, os.path.join(VERIF, "sim/selftest/mk_mutant.py"), name, wt])
-            scale = "1" if name in ("D1", "D3", "E1") else os.environ.get("SELFTEST_SCALE", "0.25")   # table-must-fill cases need the full quick tier
+            scale = "1" if name in ("D1", "D3", "E1", "H2") else os.environ.get("SELFTEST_SCALE", "0.25")   # table-must-fill cases need the full quick tier
             env = dict(os.environ, VERIF_REPO=wt, VERIF_RUNS_SCALE=scale,
                        VERIF_EVIDENCE_DIR=tempfile.gettempdir())
             if name.endswith("_threads_only"):
